@@ -14,10 +14,11 @@ CONSTANTS NTx = 2
           SubMax = 2
           Depth = 2
           AllowCatch = TRUE
+          RestoreOnError = TRUE
           Runs = 1
           Clock = {0}
           EmitOn = TRUE
-INVARIANT PropC15ExceptCaught
+INVARIANT PropC15
 INVARIANT OverlayClean
 INVARIANT PropC16
 CHECK_DEADLOCK FALSE
